@@ -1,4 +1,5 @@
 import GlueVerif.Lemmas.C09Dispatch
+import GlueVerif.Lemmas.C09Rect
 /-!
 # C09 — a drawn region becomes a selection of exactly the points the region contains
 
@@ -90,7 +91,7 @@ theorem categorical_roi (labels : List Int) (xc yc : Option (List Int))
 /-- An unrotated rectangle (`θ ≡ 0 mod π`) with at least one categorical axis is decomposed into
 two ranges joined by `AndState`; off the rectangle's boundary the selection is exactly the open
 rectangle, for the three axis-kind combinations and NaN values.  (Rotated rectangles take the
-polygon-like branches after the F9 repair: `polygon_cat_cat`, `polygonised_cat_num`.) -/
+polygon-like branches after the F9 repair: `polygon_cat_cat`, `rect_rotated_cat_num`.) -/
 theorem rect_categorical (xmin xmax ymin ymax c : Rat) (hc : c * c = 1) (xc yc : Option (List Int))
     (hcx : catsOk xc = true) (hcy : catsOk yc = true) (hany : (xc.isSome || yc.isSome) = true)
     (usePre : Bool) (e : Elem) (hx : valOk xc e.x = true) (hy : valOk yc e.y = true)
@@ -273,6 +274,42 @@ theorem polygon_cat_num (vs : List Pt) (usePre : Bool) (cs : List Int) (hs : str
       simp only [specSelected, specPoint, plotPos, plotCoord, applyPre, Option.map_some, roiContains]
       exact this.2.1 hb
 
+/-- **Rotated rectangle on one categorical axis** (the path the F9 repair sends it down): for every
+rotation `(c, s)` with `s ≠ 0`, ordered bounds, every category list and every value, off the
+rectangle's boundary the selection is exactly the rotated rectangle `|u| < w/2 ∧ |v| < h/2`.
+Rests on `Lemmas.rotRect_evenOdd`: the even-odd test of the corner polygon equals the rectangle
+inequality — by rotation invariance of the even-odd rule (`Lemmas.evenOdd_rot`: a rotation is three
+shears; horizontal shears leave matplotlib's rule literally unchanged, vertical ones by direction
+independence) and the axis-aligned box. -/
+theorem rect_rotated_cat_num (xmin xmax ymin ymax c s : Rat) (hu : c * c + s * s = 1) (hs : s ≠ 0)
+    (hx : xmin ≤ xmax) (hy : ymin ≤ ymax) (usePre : Bool) (cs : List Int)
+    (hcs : strictSorted cs = true) (l : Int) (hl : l ∈ cs) (q : Option Rat) :
+    (specOnBoundary (.rect xmin xmax ymin ymax c s) (some cs) none none ⟨.lab l, .num q⟩ = false →
+      mask none (roiToState (.rect xmin xmax ymin ymax c s) (some cs) none usePre) ⟨.lab l, .num q⟩ =
+        specSelected (.rect xmin xmax ymin ymax c s) (some cs) none none ⟨.lab l, .num q⟩) ∧
+    (specOnBoundary (.rect xmin xmax ymin ymax c s) none (some cs) none ⟨.num q, .lab l⟩ = false →
+      mask none (roiToState (.rect xmin xmax ymin ymax c s) none (some cs) usePre) ⟨.num q, .lab l⟩ =
+        specSelected (.rect xmin xmax ymin ymax c s) none (some cs) none ⟨.num q, .lab l⟩) := by
+  have hr : isPolygonLike (.rect xmin xmax ymin ymax c s) usePre = true := by simp [isPolygonLike, hs]
+  have h := polygonised_cat_num (.rect xmin xmax ymin ymax c s) usePre hr cs hcs l hl
+  cases q with
+  | none =>
+    have := h 0
+    constructor <;> intro _
+    · rw [this.2.2.1]; simp [specSelected, specPoint, plotPos, plotCoord]
+    · rw [this.2.2.2]; simp [specSelected, specPoint, plotPos, plotCoord]
+  | some v =>
+    have := h v
+    constructor <;> intro hb
+    · simp only [specOnBoundary, specPoint, plotPos, plotCoord, applyPre, Option.map_some] at hb
+      have hrr := rotRect_evenOdd xmin xmax ymin ymax c s hu hs hx hy _ hb
+      simp only [specSelected, specPoint, plotPos, plotCoord, applyPre, Option.map_some]
+      rw [this.1 hrr.2, hrr.1]
+    · simp only [specOnBoundary, specPoint, plotPos, plotCoord, applyPre, Option.map_some] at hb
+      have hrr := rotRect_evenOdd xmin xmax ymin ymax c s hu hs hx hy _ hb
+      simp only [specSelected, specPoint, plotPos, plotCoord, applyPre, Option.map_some]
+      rw [this.2.1 hrr.2, hrr.1]
+
 /-- Both axes numeric (`RoiSubsetState`, optional pretransform): the selection is the region's own
 containment test on the (transformed) point, NaN never selected; `PolygonalROI` goes through the
 bounding-box prefilter, which never changes the answer (`Lemmas.evenOdd_imp_bbox`).  Holds on the
@@ -323,8 +360,8 @@ theorem categories_ok (xs : List Int) : catsOk (some (categories xs)) = true ∧
 
 /-- **Main theorem.**  For every region, every pair of axis kinds, every category list, every
 data element and every `use_pretransform` / pretransform inside `inScope` (well-kinded inputs as
-the viewers produce them; on the one-categorical-axis polygon path the region is a polygon — for
-the other shapes see `polygonised_cat_num`): if the element's plotted position is not on the
+the viewers produce them; on the one-categorical-axis polygon path the region is a polygon or a
+rotated rectangle with ordered bounds — for circles / ellipses see `polygonised_cat_num`): if the element's plotted position is not on the
 region's boundary, the state built by `roi_to_subset_state` selects the element **iff** its plotted
 position lies in the region. -/
 theorem roi_selection (r : Roi) (xc yc : Option (List Int)) (usePre : Bool) (pre : Option Affine)
@@ -374,7 +411,7 @@ theorem roi_selection (r : Roi) (xc yc : Option (List Int)) (usePre : Bool) (pre
         | categorical _ => simp [Roi.isCategorical] at hcat
         | range ori lo hi =>
           cases usePre with
-          | true => simp [isPolygonLike, Roi.isPoly] at hpoly
+          | true => simp [isPolygonLike, Roi.isPoly, Roi.isOrderedRect] at hpoly
           | false =>
             cases ori
             · exact (range_numeric lo hi qx (.lab ly) (some ys)).1 hb
@@ -384,9 +421,12 @@ theorem roi_selection (r : Roi) (xc yc : Option (List Int)) (usePre : Bool) (pre
           · subst hs0
             have hc : c * c = 1 := by simpa [Roi.unitOk] using hunit
             exact rect_categorical xmin xmax ymin ymax c hc none (some ys) rfl hcy rfl usePre _ rfl hvy hb
-          · simp [isPolygonLike, Roi.isPoly, hs0] at hpoly
-        | circle _ _ _ => simp [isPolygonLike, Roi.isPoly] at hpoly
-        | ellipse _ _ _ _ _ _ => simp [isPolygonLike, Roi.isPoly] at hpoly
+          · have hu : c * c + s * s = 1 := by simpa [Roi.unitOk] using hunit
+            have hord : xmin ≤ xmax ∧ ymin ≤ ymax := by
+              simpa [isPolygonLike, Roi.isPoly, Roi.isOrderedRect, hs0] using hpoly
+            exact (rect_rotated_cat_num xmin xmax ymin ymax c s hu hs0 hord.1 hord.2 usePre ys hsy ly hly qx).2 hb
+        | circle _ _ _ => simp [isPolygonLike, Roi.isPoly, Roi.isOrderedRect] at hpoly
+        | ellipse _ _ _ _ _ _ => simp [isPolygonLike, Roi.isPoly, Roi.isOrderedRect] at hpoly
         | poly vs => exact (polygon_cat_num vs usePre ys hsy ly hly qx).2 hb
   · -- categorical x, numeric y
     have hp : pre = none := by cases pre <;> simp_all
@@ -403,7 +443,7 @@ theorem roi_selection (r : Roi) (xc yc : Option (List Int)) (usePre : Bool) (pre
         | categorical labels => exact categorical_roi labels (some xs) none rfl usePre none lx _
         | range ori lo hi =>
           cases usePre with
-          | true => simp [isPolygonLike, Roi.isPoly] at hpoly
+          | true => simp [isPolygonLike, Roi.isPoly, Roi.isOrderedRect] at hpoly
           | false =>
             cases ori
             · exact (range_categorical lo hi xs hsx lx hlx (.num qy) none).1 hb
@@ -413,9 +453,12 @@ theorem roi_selection (r : Roi) (xc yc : Option (List Int)) (usePre : Bool) (pre
           · subst hs0
             have hc : c * c = 1 := by simpa [Roi.unitOk] using hunit
             exact rect_categorical xmin xmax ymin ymax c hc (some xs) none hcx rfl rfl usePre _ hvx rfl hb
-          · simp [isPolygonLike, Roi.isPoly, hs0] at hpoly
-        | circle _ _ _ => simp [isPolygonLike, Roi.isPoly] at hpoly
-        | ellipse _ _ _ _ _ _ => simp [isPolygonLike, Roi.isPoly] at hpoly
+          · have hu : c * c + s * s = 1 := by simpa [Roi.unitOk] using hunit
+            have hord : xmin ≤ xmax ∧ ymin ≤ ymax := by
+              simpa [isPolygonLike, Roi.isPoly, Roi.isOrderedRect, hs0] using hpoly
+            exact (rect_rotated_cat_num xmin xmax ymin ymax c s hu hs0 hord.1 hord.2 usePre xs hsx lx hlx qy).1 hb
+        | circle _ _ _ => simp [isPolygonLike, Roi.isPoly, Roi.isOrderedRect] at hpoly
+        | ellipse _ _ _ _ _ _ => simp [isPolygonLike, Roi.isPoly, Roi.isOrderedRect] at hpoly
         | poly vs => exact (polygon_cat_num vs usePre xs hsx lx hlx qy).1 hb
   · -- categorical / categorical
     have hp : pre = none := by cases pre <;> simp_all
@@ -457,7 +500,9 @@ example :
     inScope (.circle 1 1 2) (some [0, 1]) (some [3]) false none ⟨.lab 1, .lab 3⟩ = true ∧
     inScope (.ellipse 0 0 2 1 (3 / 5) (4 / 5)) none none true (some ⟨0, 1, 0, 1, 0, 0⟩)
       ⟨.num (some 1), .num (some 0)⟩ = true ∧
-    inScope (.range .y (1 / 2) 3) (some [0, 1]) (some [3, 9]) false none ⟨.lab 1, .lab 9⟩ = true := by
+    inScope (.range .y (1 / 2) 3) (some [0, 1]) (some [3, 9]) false none ⟨.lab 1, .lab 9⟩ = true ∧
+    inScope (.rect (1 / 2) (5 / 2) (-3 / 4) (3 / 4) (3 / 5) (4 / 5)) (some [0, 1, 2, 3]) none false none
+      ⟨.lab 2, .num (some (7 / 8))⟩ = true := by
   decide +kernel
 
 /-! ## Defect F9 (repaired): rotated rectangle on a categorical axis -/
